@@ -181,6 +181,9 @@ def check_one(src_desc, ti, ctx):
     ctx.check("notes.same", rn == notes_of(tgt), site=site, case=case, observed=rn, expected=notes_of(tgt))
     inv = [(t, n) for t, cnt in rs.items() for n, c in cnt.items() if c > 0 and ss.get(t, {}).get(n, 0) == 0]
     ctx.check("no_invention", not inv, site=site, case=case, observed=inv, expected="every sound on a result note is in the source at that time")
+    # the event samples are carried by the result too: each one is a named sample of the source at that time, no more often than there
+    stray = [(t, n, c, ss.get(t, {}).get(n, 0)) for t, cnt in ev.items() for n, c in cnt.items() if c > ss.get(t, {}).get(n, 0)]
+    ctx.check("events.from_source", not stray, site=site, case=case, observed=stray, expected="every event sample of the result is a named sample of the source at that time")
     mult = [(t, n, c, ss.get(t, {}).get(n, 0)) for t, cnt in rs.items() for n, c in cnt.items() if not n.startswith("file:") and ss.get(t, {}).get(n, 0) > 0 and c > ss[t][n]]
     ctx.check("multiplicity", not mult, site=site, case=case, observed=mult, expected="no more claps/finishes/whistles per time than the source")
     lost = []
